@@ -9,6 +9,7 @@ import (
 	"net"
 	"os"
 	"path/filepath"
+	"runtime"
 	"sync"
 	"time"
 
@@ -166,12 +167,13 @@ func rtmpCanary(s *srv.Server, name string) error { return rtmpCanaryMin(s, name
 // rtmpCanaryMin: at least min of the 9 canary messages must arrive (merge-write configurations
 // legitimately withhold a tail smaller than merge_write_size).
 func rtmpCanaryMin(s *srv.Server, name string, min int) error {
+	from := s.Notify.Len()
 	sub, err := ref.StartRtmpSubscriber(s.RtmpAddr(), "live", name, 5*time.Second)
 	if err != nil {
 		return fmt.Errorf("canary subscriber: %w", err)
 	}
 	defer sub.Close()
-	if _, ok := s.Notify.WaitSession(5*time.Second, "sub_start", sub.RC.Conn.LocalAddr().String()); !ok {
+	if _, ok := s.Notify.WaitSessionFrom(5*time.Second, from, "sub_start", sub.RC.Conn.LocalAddr().String()); !ok {
 		return fmt.Errorf("canary subscriber was not admitted within 5 s")
 	}
 	pub, err := ref.StartRtmpPublisher(s.RtmpAddr(), "live", name, 5*time.Second)
@@ -569,13 +571,13 @@ func init() {
 				c.Cell("%s/%s", c04States[in.State], in.Class)
 				if k%100 == 99 {
 					if err := rtmpCanary(s, fmt.Sprintf("canary%d_%d", i, k)); err != nil {
-						c.Violate("canary/stopped-serving", fmt.Sprintf("%v (after input class %s)", err, in.Class), nil)
+						c.Violate("canary/stopped-serving", fmt.Sprintf("%v (after input class %s)", err, in.Class), goroutineDump())
 						return
 					}
 				}
 			}
 			if err := rtmpCanary(s, fmt.Sprintf("canary%d_end", i)); err != nil {
-				c.Violate("canary/stopped-serving", err.Error(), nil)
+				c.Violate("canary/stopped-serving", err.Error(), goroutineDump())
 			}
 			c.Count("connections_closed_by_lal", closed)
 			c.Count("connections_left_open", open)
@@ -601,4 +603,11 @@ func hexHead(b []byte, state int) string {
 		t = t[:96]
 	}
 	return hex.EncodeToString(t)
+}
+
+// goroutineDump returns the stacks of all goroutines (evidence for a failing canary).
+func goroutineDump() string {
+	buf := make([]byte, 1<<20)
+	n := runtime.Stack(buf, true)
+	return string(buf[:n])
 }
